@@ -105,9 +105,12 @@ def ctor_cases(draw):
             c["interval"] = [a, a + draw(st.integers(0, 10))]
         else:
             a = draw(st.integers(-6, 6))
-            stp = draw(st.sampled_from([1, 2, 3, 0.5, -1, -2]))
+            stp = draw(st.sampled_from([1, 2, 3, 0.5, -1, -2, 0.3, 0.1, -0.3, 0.7]))
             n = draw(st.integers(0, 8))
             c["interval"] = [a, a + stp * n, stp]
+            if not float(stp).is_integer() and stp not in (0.5,):
+                # decimal bounds: the element count ceil((end-start)/step) is taken from the doubles as given
+                c["interval"] = [draw(st.sampled_from([0, 0.1, 1])), round(draw(st.sampled_from([2.1, 0.9, 1.5, 3.3])) * (1 if stp > 0 else -1), 6), stp]
     if name == "normal":
         c["loc"] = draw(st.sampled_from([0.0, -3.0, 10.0]))
         c["scale"] = draw(st.sampled_from([1.0, 0.5, 4.0]))
@@ -224,7 +227,11 @@ def check_ctor(c, rec):
         raise Violation("value", f"{name}: not all ones; {ctx}", region=name)
     if name in ("zeros", "zeros_like") and not np.all(d == 0):
         raise Violation("value", f"{name}: not all zeros; {ctx}", region=name)
-    if name == "arange" and not np.array_equal(d, exp):
+    if name == "arange" and any(not float(v).is_integer() for v in c["interval"]):
+        # fractional steps: the COUNT is exact, the values are start + i*step to rounding of the result dtype
+        if d.shape != exp.shape or np.abs(d.astype(np.float64) - exp.astype(np.float64)).max(initial=0.0) > 4 * float(np.finfo(d.dtype if d.dtype.kind == "f" else np.float32).eps) * max(1.0, float(np.abs(exp).max(initial=0.0))):
+            raise Violation("value", f"arange{tuple(c['interval'])}: {d!r} != np.arange: {exp!r}", region=name)
+    elif name == "arange" and not np.array_equal(d, exp):
         raise Violation("value", f"arange{tuple(c['interval'])}: {d!r} != np.arange: {exp!r}", region=name)
     if name == "eye":
         for i in range(c["n"]):
